@@ -55,6 +55,8 @@ func checkC02(p *core.Program, r *core.Report) {
 	c02R5(p, r)
 	r.Rule("R9", "what the engine writes the reader accepts, for run state: a text field of a persisted struct of flows, flows/runs or flows/engine that carries a validate constraint beyond required/omitempty is never fed — through its constructor's parameter, followed two call levels up, except under a constant regexp gate whose language lies inside the constraint's (decided on automata) — from run-time text (a translation looked up with Run.GetText*/GetItemTranslation, an evaluated template, the text of an incoming message): such text is not constrained where it is written, so a session the engine has written could not be read back")
 	c02R9(p, r)
+	r.Rule("R10", "what is written is everything: in the MarshalJSON methods (and the same-package helpers they call) of the persisted types of flows, flows/runs and flows/engine no list held by the receiver is re-sliced (x[a:b]) before it is written — a run path or an event list cut to its most recent part reads back shorter than the live one, and @node.visit_count, the path and FindStep differ after a restart")
+	c02R10(p, r)
 	r.Assumption("equality of behaviour of the restored session is not decided; encoding/json round-trips exported, tagged fields of plain structs")
 
 	pkgSet := map[string]bool{}
@@ -673,6 +675,56 @@ func c02R5(p *core.Program, r *core.Report) {
 	}
 	r.Count("evaluated_required_event_fields", n)
 	r.Require("evaluated_required_event_fields", n, 1)
+}
+
+// c02R10: marshal functions write whole lists.
+func c02R10(p *core.Program, r *core.Report) {
+	scope := map[string]bool{"flows": true, "flows/runs": true, "flows/engine": true}
+	n := 0
+	for _, fn := range p.ModuleFunctions() {
+		if fn.Name() != "MarshalJSON" || !scope[core.RelPkg(core.FuncPkgPath(fn))] || p.IsTestFile(fn.Pos()) || fn.Synthetic != "" || len(fn.Params) == 0 {
+			continue
+		}
+		n++
+		bad := ""
+		for _, h := range append([]*ssa.Function{fn}, helpersOf(fn)...) {
+			core.EachInstr(h, false, func(_ *ssa.Function, in ssa.Instruction) {
+				sl, ok := in.(*ssa.Slice)
+				if !ok || (sl.Low == nil && sl.High == nil) {
+					return
+				}
+				if _, isSl := sl.X.Type().Underlying().(*types.Slice); !isSl {
+					return
+				}
+				for v := range core.BackSlice(sl.X, nil) {
+					if u, ok := v.(*ssa.UnOp); ok && u.Op == token.MUL {
+						if fa, ok := u.X.(*ssa.FieldAddr); ok && len(h.Params) > 0 && fa.X == ssa.Value(h.Params[0]) {
+							o, f := ownerOfFieldAddr(fa)
+							bad = "the list " + o + "." + f + " is cut (" + p.Pos(sl.Pos()) + ") before it is written"
+						}
+					}
+				}
+			})
+		}
+		r.Check(bad == "", "R10", core.FuncName(fn)+"/writes-whole-lists", p.Pos(fn.Pos()), "no list of the receiver is re-sliced", bad+": the restored object holds less than the live one")
+	}
+	r.Count("marshal_methods_scanned", n)
+	r.Require("marshal_methods_scanned", n, 8)
+}
+
+// helpersOf: the same-package functions fn calls statically with its own receiver as receiver.
+func helpersOf(fn *ssa.Function) []*ssa.Function {
+	var out []*ssa.Function
+	for _, cs := range core.Calls(fn, false) {
+		g := cs.Common().StaticCallee()
+		if g == nil || g.Blocks == nil || g == fn || core.FuncPkgPath(g) != core.FuncPkgPath(fn) || len(cs.Common().Args) == 0 || len(fn.Params) == 0 {
+			continue
+		}
+		if cs.Common().Args[0] == ssa.Value(fn.Params[0]) {
+			out = append(out, g)
+		}
+	}
+	return out
 }
 
 // c02ConstraintPatterns: what a validator tag admits, as a regular expression (go-playground/validator's own).
